@@ -2,3 +2,4 @@ import CpSpec.Codes
 import CpSpec.Wire
 import CpSpec.Mpint
 import CpSpec.Tls
+import CpSpec.Ja3
